@@ -68,12 +68,36 @@ def gen(ctx):
     for sym, o in zip(em, outs):
         if o.startswith('ok '):
             L.append('%s.decfull %s' % (sym, o[3:]))
+    # call sequences across FAILED calls: valid, invalid (rejected after some bits were written: bad character in a later
+    # segment, data too large, count too long), the same valid description again, ... - all in one process, in order.
+    # Equal lines must get equal answers (and each answer is also compared with the pure model).
+    hist = []
+    for sym in ('qr', 'mq', 'rm'):
+        cfgs = symgen.configs(sym)
+        ref = symgen.ref(sym)
+        for k in range(4 if ctx.tier == 'quick' else 30):
+            ver, level = cfgs[r.below(len(cfgs))]
+            mask = 0 if sym == 'rm' else r.choice(symgen.masks(sym))
+            label, segs = symgen.shapes(sym, r, ver, level, 1)[0]
+            valid = symgen.enc_line(sym, ver, level, mask, segs)
+            kinds = symgen.kinds_for(sym, ver)
+            k0 = kinds[0]
+            good = (ref.MODE[k0], symgen.payload(r, k0, 2))
+            bads = [[good, (ref.MODE['num'], b'12a4')], [good, good, (ref.MODE[kinds[-1]], symgen.payload(r, kinds[-1], 1) + b'\xff\xfe') if kinds[-1] in ('alnum', 'kanji') else (ref.MODE['num'], b'9x')],
+                    [(ref.MODE[k0], symgen.payload(r, k0, 3))] * 400]
+            seq = [valid]
+            for b in bads:
+                seq += [symgen.enc_line(sym, ver, level, mask, b), valid]
+            hist.append(seq)
+    ctx.c09_hist = (len(L), hist)
+    for seq in hist:
+        L += seq
     ctx.c09_payloads = ps
     return L
 
 
 def model_line(l):
-    return '.decfull ' in l
+    return '.decfull ' in l or '.enc ' in l
 
 
 def oracle(ctx, lines, out):
@@ -98,6 +122,35 @@ def oracle(ctx, lines, out):
             cnt[key] = cnt.get(key, 0) + 1
             if cnt[key] <= 2:
                 v.append({'key': key, 'lines': [l], 'expect': 'ok', 'got': o[:100], 'detail': detail})
+    # sequences across failed calls: equal calls, equal answers
+    if hasattr(ctx, 'c09_hist') and len(lines) > ctx.c09_hist[0]:
+        pos = ctx.c09_hist[0]
+        for seq in ctx.c09_hist[1]:
+            outs = out[pos:pos + len(seq)]
+            pos += len(seq)
+            first = {}
+            for j, (l, o) in enumerate(zip(seq, outs)):
+                if o.startswith('panic') or o in ('crash', 'timeout'):
+                    key = '%s:encode-%s' % (l.split('.')[0], o.split()[0])
+                    cnt[key] = cnt.get(key, 0) + 1
+                    if cnt[key] <= 2:
+                        v.append({'key': key, 'lines': seq[:j + 1], 'expect': 'ok or error', 'got': o[:100], 'detail': 'EncodeToBitmap %s in a call sequence' % o.split()[0]})
+                if l in first and first[l][1] != o:
+                    key = '%s:history-dependent-result' % l.split('.')[0]
+                    cnt[key] = cnt.get(key, 0) + 1
+                    if cnt[key] <= 2:
+                        v.append({'key': key, 'lines': seq[:j + 1], 'expect': first[l][1][:100], 'got': o[:100],
+                                  'detail': 'the same EncodeToBitmap call answers differently after an intervening rejected call: call %d and call %d of the sequence (%s ... vs %s ...)' % (first[l][0] + 1, j + 1, first[l][1][:40], o[:40])})
+                first.setdefault(l, (j, o))
+    elif l0 := [l for l in lines if '.enc ' in l]:
+        # replay of a recorded sequence
+        first = {}
+        for j, (l, o) in enumerate(zip(lines, out)):
+            if '.enc ' in l:
+                if l in first and first[l][1] != o:
+                    v.append({'key': '%s:history-dependent-result' % l.split('.')[0], 'lines': lines[:j + 1], 'expect': first[l][1][:100], 'got': o[:100],
+                              'detail': 'the same EncodeToBitmap call answers differently after an intervening rejected call (call %d vs call %d)' % (first[l][0] + 1, j + 1)})
+                first.setdefault(l, (j, o))
     # schedules, under the race detector
     r = ctx.rng
     conc = []
